@@ -225,9 +225,9 @@ def main(argv):
             nf, nb, npnt = int(8000 * a.scale), int(30000 * a.scale), int(2500 * a.scale)
         else:
             cfgs = (a.configs.split(",") if a.configs else ALL_CONFIGS)
-            nf, nb, npnt = int(600000 * a.scale), int(1200000 * a.scale), int(120000 * a.scale)
+            nf, nb, npnt = int(300000 * a.scale), int(600000 * a.scale), int(60000 * a.scale)
         exes = build_many(cfgs)
-        m = run_sharded("c20", "gen", (names, nf // NCPU + 1, nb // NCPU + 1, npnt // NCPU + 1), [(c, exes[c]) for c in cfgs], a.seed, timeout=3600)
+        m = run_rounds(1 if a.tier == "quick" else 2, "c20", "gen", (names, nf // NCPU + 1, nb // NCPU + 1, npnt // NCPU + 1), [(c, exes[c]) for c in cfgs], a.seed, timeout=3600)
         rep.merge(m)
         rep.require("field:set_cond:ctl=0", "field:set_cond:ctl=1", "field:cswap:ctl=1", "field:equals:equal-other-repr", "field:equals:neighbour",
                     "field:equals:one-bit", "field:iszero:nonzero-repr-of-zero", "field:lookup16_x3:out-of-range", "field:lookup16_x4:in-range",
